@@ -763,7 +763,101 @@ impl Manip {
                 }
             }
         }
+        self.mixed_destination_seam(st, n_live, ctx);
         ctx.nontrivial(idx.wrapping_mul(0x9E37_79B9) ^ 0xC05_27);
+    }
+
+    /// the other clause that is defined on the mixed states: a text node that a call puts next to a text node
+    /// it was not next to before *becomes* adjacent to it by the very request, so with consolidation on the two
+    /// must not both be left as separate neighbours (seed C05-28). Which of the two survives, and whether the
+    /// merged node is merged further, is left open; a call asking for the place the node already has is skipped.
+    fn mixed_destination_seam(&self, st: &StartState, n_live: usize, ctx: &mut Ctx) {
+        for i in 0..n_live {
+            for j in 0..n_live {
+                if i == j {
+                    continue;
+                }
+                for kind in 0..4usize {
+                    let mut f = match build_state(st, false) {
+                        Ok(f) => f,
+                        Err(_) => return,
+                    };
+                    let l = f.live_handles();
+                    if l.len() != n_live {
+                        ctx.count("harness_nondeterministic_build");
+                        return;
+                    }
+                    // kinds 0/1: l[i] is the reference text node; kinds 2/3: l[i] is the new parent
+                    let (a, node) = (l[i], l[j]);
+                    let setup = guard(|| {
+                        let x = &f.xot;
+                        if !x.is_text(node) {
+                            return None;
+                        }
+                        match kind {
+                            0 | 1 => {
+                                if !x.is_text(a) || x.parent(a).is_none() {
+                                    return None;
+                                }
+                                let in_place = if kind == 0 { x.next_sibling(node) == Some(a) } else { x.next_sibling(a) == Some(node) };
+                                if in_place {
+                                    return None;
+                                }
+                                Some(a)
+                            }
+                            _ => {
+                                if !x.is_element(a) {
+                                    return None;
+                                }
+                                let edge = if kind == 2 { x.last_child(a) } else { x.first_child(a) }?;
+                                if edge == node || !x.is_text(edge) {
+                                    return None;
+                                }
+                                Some(edge)
+                            }
+                        }
+                    });
+                    let other = match setup {
+                        Ok(Some(o)) => o,
+                        _ => continue,
+                    };
+                    let start = f.show_real();
+                    let (name, res) = match kind {
+                        0 => ("insert_before", guard(|| f.xot.insert_before(a, node))),
+                        1 => ("insert_after", guard(|| f.xot.insert_after(a, node))),
+                        2 => ("append", guard(|| f.xot.append(a, node))),
+                        _ => ("prepend", guard(|| f.xot.prepend(a, node))),
+                    };
+                    ctx.count("mixed_destination_seam.calls");
+                    match res {
+                        Ok(Ok(())) => {}
+                        _ => continue,
+                    }
+                    let both_left = guard(|| {
+                        let x = &f.xot;
+                        !x.is_removed(other)
+                            && !x.is_removed(node)
+                            && x.is_text(other)
+                            && x.is_text(node)
+                            && x.parent(other).is_some()
+                            && x.parent(other) == x.parent(node)
+                            && (x.next_sibling(other) == Some(node) || x.next_sibling(node) == Some(other))
+                    });
+                    match both_left {
+                        Ok(false) => ctx.count("mixed_destination_seam.merged"),
+                        Ok(true) => ctx.violation(
+                            "text nodes that become adjacent are merged into the earlier one (consolidation on)",
+                            format!("C05/mixed-destination-seam/{}/moved-text-left-next-to-text", name),
+                            J::obj()
+                                .set("start", J::s(start))
+                                .set("call", J::s(format!("{}(node #{}, text node #{}), consolidation on (the start state was built with it off)", name, i, j)))
+                                .set("after", J::s(f.show_real())),
+                        ),
+                        Err(_) => {}
+                    }
+                }
+            }
+        }
     }
 
     /// slot churn: > 40 000 remove/create cycles on one slot, all old handles kept (C04, F43)
@@ -851,6 +945,7 @@ impl Monitor for Manip {
                 ("consolidation.run2", 500),
                 ("consolidation.run3", 50),
                 ("mixed_take_out.merged", 400),
+                ("mixed_destination_seam.merged", 400),
                 ("call.replace.ok", 100),
                 ("call.element_unwrap.ok", 100),
                 ("call.insert_after.ok", 100),
